@@ -170,6 +170,12 @@ def run_shard(shard):
             for k, s in it:
                 check_string(acc, s, k)
                 acc.extra['neighbours'] += 1
+            if shard['n'] <= 1 or (shard['alpha'] == 'core' and shard['n'] <= 2) or shard['tier'] != 'quick':
+                # token-level fillers (a comment line, a blank line, an empty group ...) at every position
+                for i in range(len(text) + 1):
+                    for tok in strings.HOSTILE_TOKENS:
+                        check_string(acc, text[:i] + tok + text[i:], 'insert-token')
+                        acc.extra['neighbours'] += 1
             acc.extra['corpus_docs'] += 1
     elif kind == 'sample':
         text = layers.sample_texts()[shard['sample']][1]
@@ -212,7 +218,7 @@ def coverage(tier, total):
     return {
         'rule': 'all strings of <= n symbols over the token-kind alphabets (%s), NUL/DEL/CR included; every prefix, '
                 'single-character deletion, adjacent transposition and insertion of one of %d hostile characters at every '
-                'position of every L_wf document of the small layers and of tests/samples; 40-deep nests of 10 container '
+                'position of every L_wf document of the small layers and of tests/samples; 40-deep nests of 11 container '
                 'kinds (%s), closed and cut at every token boundary; each x tolerance 0/1.  distinct = distinct '
                 '(input, tolerance, outcome class)' % (
                     ', '.join('%s n<=%d (%d symbols)' % (a, n, len(strings.sigma(a))) for a, n in strings.PLAN[tier]),
